@@ -127,7 +127,7 @@ import blackbox  # noqa: E402
 SEARCH_TB = [KERNEL, AXIOMS, TIE, EXTRACT,
              "the search model is generic over an abstract game; its chess instance plugs in the models of C01/C02/C14/C11",
              "std HashMap / Vec / stable sort (sort_by_cached_key ~ List.mergeSort) modelled, not verified",
-             "Instant::now()/elapsed() modelled as a deadline oracle over poll indices / node counts (every monotone clock); quiescence termination and stack depth are assumptions (fuel)"]
+             "Instant::now()/elapsed() modelled as a deadline oracle over poll indices / node counts (every monotone clock); termination of quiescence on every valid board with <= 16 men a side is PROVED (Props/QTerm.lean: recursion depth <= 49 502 944, result independent of the fuel); the machine stack that such a recursion needs is not modelled"]
 HASHINJ = "HashInj: no Zobrist collision among the positions a run visits (hypothesis of the theorems; probability remark in DESIGN.md C11)"
 
 PROPS["C12"]["custom"] = [blackbox.step_clock_go]
@@ -183,12 +183,12 @@ PROPS["C08"] = {
 }
 PROPS["C03"] = {
     "level": "proof",
-    "prop_modules": ["Flounder.Props.C03", "Flounder.Props.SearchRanked", "Flounder.Props.ChessSearch", "Flounder.Props.ChessSearchExample", "Flounder.Props.C03Engine", "Flounder.Props.C03EngineExample"],
+    "prop_modules": ["Flounder.Props.C03", "Flounder.Props.SearchRanked", "Flounder.Props.ChessSearch", "Flounder.Props.ChessSearchExample", "Flounder.Props.C03Engine", "Flounder.Props.C03EngineExample", "Flounder.Props.QTerm"],
     "budget": {"quick": [("c03", 15)], "thorough": [("c03", 400)], "search": [("c03", 800)]},
     "custom": [blackbox.step_transcripts, blackbox.step_timed],
     "rule": "in-process: after 0-3 earlier (possibly interrupted) searches on other positions, the position is searched with a deadline at every early poll (0 = zero budget), sampled later polls/node counts and no deadline; every answer judged by the Lean rules spec (legal; 'no move' only without legal moves); mate/stalemate positions. black-box: generated UCI scripts on the real binary, one bestmove per go, legal by the spec; real clocks (movetime 0/1/5/30, clocks around the 5 s reserve)",
     "trusted_base": SEARCH_TB + [HASHINJ],
-    "assumptions": [HASHINJ, "termination of an UNLIMITED search on positions with exploding quiescence is not claimed (the engine itself does not terminate quickly there)"],
+    "assumptions": [HASHINJ, "an UNLIMITED search terminates on every good board (Props/QTerm.lean) but no bound on its running time or stack use is claimed (quiescence follows every check; the tree can be astronomically large)"],
     "finding_key": lambda sf: None,
     "timeout": 3000,
 }
